@@ -35,6 +35,7 @@ from .instructions import Push, Pop, SubImm, AddImm, MovsxReg64Rm8
 from .instructions import Call, Ret, bits16, RmReg16, bits32, RmReg32
 from .x87_instructions import x87_isa
 from .sse2_instructions import sse1_isa, sse2_isa, Movss, Movsd
+from .sse2_instructions import Movss2, Movsd2
 from .sse2_instructions import RmXmmRegSingle, RmXmmRegDouble
 from .sse2_instructions import PushXmmRegisterDouble, PopXmmRegisterDouble
 from .sse2_instructions import PushXmmRegisterSingle, PopXmmRegisterSingle
@@ -530,6 +531,21 @@ class X86_64Arch(Architecture):
                     uses=(registers.eax,), defs=(registers.rax,)
                 )
                 yield Push(rax)
+            elif isinstance(push_reg, registers.Register16):
+                yield self.move(registers.ax, push_reg)
+                yield instructions.MovsxReg64Rm16(rax, RmReg16(registers.ax))
+                yield Push(rax)
+            elif isinstance(push_reg, registers.Register8):
+                yield self.move(al, push_reg)
+                yield MovsxReg64Rm8(rax, RmReg8(al))
+                yield Push(rax)
+            elif isinstance(push_reg, registers.XmmRegisterDouble):
+                yield SubImm(rsp, 8)
+                yield Movsd2(instructions.RmMem(rsp), push_reg)
+            elif isinstance(push_reg, registers.XmmRegisterSingle):
+                # A float also takes an eight byte slot.
+                yield SubImm(rsp, 8)
+                yield Movss2(instructions.RmMem(rsp), push_reg)
             elif isinstance(push_reg, StackLocation):
                 # Invoke massive memcpy action!
                 # TODO: how about alignment?
